@@ -78,15 +78,22 @@ fn c01() {
     };
     let mut jobs = Vec::new();
     for (p, n) in shapes {
+        // three producers, or more than four entries, are explored with one preemption less
+        // (a single such model at bound 3 does not finish in 10 minutes)
+        let big = p >= 3 || p * n > 4;
+        let pb = if big && tier == Tier::Thorough { 2 } else { pb };
         for boxed in [false, true] {
             for flush in [false, true] {
+                if big && tier == Tier::Thorough && boxed != flush {
+                    continue;
+                }
                 let full = p * n <= tier.pick(2, 3);
                 for script in scripts(p * n, full) {
                     // error scripts only on the typed, no-flush variant unless thorough
-                    if script.contains(['v', 'i']) && (boxed || flush) && tier == Tier::Quick {
+                    if script.contains(['v', 'i']) && (boxed || flush) && (tier == Tier::Quick || big) {
                         continue;
                     }
-                    jobs.push(Job { harness: "c01", cfg: json!({"p": p, "n": n, "boxed": boxed, "flush": flush, "script": script, "pb": pb}) });
+                    jobs.push(Job { harness: "c01", cfg: json!({"p": p, "n": n, "boxed": boxed, "flush": flush, "script": script, "pb": pb, "max_secs": 300}) });
                 }
             }
         }
@@ -195,8 +202,8 @@ fn c09() {
     }
     jobs.push(Job { harness: "c09", cfg: json!({"cap": 1, "p": 2, "n": 1, "free": true, "pb": pb}) });
     if tier == Tier::Thorough {
-        jobs.push(Job { harness: "c09", cfg: json!({"cap": 2, "p": 2, "n": 3, "early_permits": 1, "pb": 2}) });
-        jobs.push(Job { harness: "c09", cfg: json!({"cap": 1, "p": 3, "n": 1, "early_permits": 0, "pb": pb}) });
+        jobs.push(Job { harness: "c09", cfg: json!({"cap": 2, "p": 2, "n": 3, "early_permits": 1, "pb": 1, "max_secs": 300}) });
+        jobs.push(Job { harness: "c09", cfg: json!({"cap": 1, "p": 3, "n": 1, "early_permits": 0, "pb": 2, "max_secs": 300}) });
     }
     finish(rep, jobs, "Capacities 1..3, one or two producers appending more entries than fit, a writer whose stream blocks on a gate with 0/1/2 early permits (0 = completely stalled): every append returns in every schedule (a blocking append is a loom deadlock), survivors are in append order, an entry is lost only if at least `capacity` newer entries exist, the newest `capacity` entries of a single producer always survive, and the metrique_queue_overflows counter equals the number of discarded entries.");
 }
@@ -227,7 +234,7 @@ fn c06() {
     ];
     for p in &placements {
         // four concurrent droppers are expensive: one preemption less there
-        let pb = if p.len() >= 4 { pb - 1 } else { pb };
+        let pb = if p.len() >= 4 { tier.pick(pb - 1, 3) } else { pb };
         add(json!({"threads": p, "pb": pb}));
     }
     // prefixes dropped by main first (non-initial states), incl. a guard created after a force drop
